@@ -35,6 +35,7 @@ from mc import core, ref
 from mc import seams
 
 PROPERTY = 'C09'
+GUARD = ['numqi.group.spf2']  # argument-immutability oracle (mc.seams.ImmutabilityGuard)
 LEVEL = 'model_checking'
 RULE = ('state = one input point of a completely enumerated finite domain (a mixed-radix tuple, a group element, an ordered pair of '
         'non-zero vectors, a (vector stack, h) pair, one sequence of answers of the stubbed random.Random, an integer of a bit width); '
